@@ -381,9 +381,14 @@ Definition map_eqb {K V} (keqb : K -> K -> bool) (veqb : option V -> option V ->
 Definition metas_eqb (a b : list (vname * meta)) : bool :=
   forallb (fun e => meta_eqb (mget (fst e) a) (mget (fst e) b)) (a ++ b).
 
-(* which component differs: 0 none, 1 imports, 2 initializers, 3 functions, 4 node metadata, 5 value metadata *)
-Definition state_diff (a b : mstate) : nat :=
-  if negb (map_eqb gkey_eqb Zopt_eqb (s_imports a) (s_imports b)) then 1
+(* which component differs: 0 none, 1 imports, 2 initializers, 3 functions, 4 node metadata, 5 value metadata.
+   tops: the serialized graph objects (model graph, functions); the opset_imports dictionaries of If/Loop bodies are part
+   of the model but are written nowhere, so they are not compared *)
+Definition only_tops {V} (tops : list nat) (i : list (gkey * V)) : list (gkey * V) :=
+  filter (fun e => existsb (Nat.eqb (fst (fst e))) tops) i.
+
+Definition state_diff (tops : list nat) (a b : mstate) : nat :=
+  if negb (map_eqb gkey_eqb Zopt_eqb (only_tops tops (s_imports a)) (only_tops tops (s_imports b))) then 1
   else if negb (map_eqb gkey_eqb (opt_eqb String.eqb) (s_inits a) (s_inits b) &&
                 forallb (fun e => list_eqb String.eqb (names_of (fst (fst e)) (s_inits a)) (names_of (fst (fst e)) (s_inits b)))
                         (s_inits a ++ s_inits b)) then 2
@@ -394,8 +399,9 @@ Definition state_diff (a b : mstate) : nat :=
 
 (* (0, _, 0): replay reproduces graph and state.  (c, i, _) with c > 0: event i fails with code c (see run_events);
    (0, _, k) with k > 0: state component k differs; k = 9: the graph differs *)
-Definition check_state (fx : flags) (evs : list event) (g : graph) (s : mstate) (gf : graph) (sf : mstate) : nat * nat * nat :=
+Definition check_state (fx : flags) (tops : list nat) (evs : list event) (g : graph) (s : mstate) (gf : graph) (sf : mstate)
+  : nat * nat * nat :=
   match run_events fx 0 evs g s with
-  | (0, i, Some (g', s')) => if graph_eqb g' gf then (0, i, state_diff s' sf) else (0, i, 9)
+  | (0, i, Some (g', s')) => if graph_eqb g' gf then (0, i, state_diff tops s' sf) else (0, i, 9)
   | (c, i, _) => (c, i, 0)
   end.
